@@ -4,6 +4,14 @@ import json
 T = "bounded symbolic execution of the real go/ssa of /repo (own SSA->SMT-LIB executor); every branch and proof obligation decided by z3 over bit-vectors; counterexamples replayed natively"
 NOTE = "trusted: go/ssa front end, z3; environment stubs listed in the evidence file (vfsx file-system model for os.Root/renameio, ideal-hash MD4, sequentialised goroutines); bounds stated in coverage.bounds"
 claimed = {
+ "C01": "Bounded: per regular file, the three real stages generator -> sender -> receiver composed; destination == source bytes (or skipped with equal sizes) for every source content, prior destination state, seed, mtime and -c -I -t -p; plus a directory push through the real client, option plumbing and receiving server.",
+ "C05": "Bounded: hostile file lists (arbitrary name bytes, any type) and arbitrary daemon sub-directory arguments: every file-system effect goes through the destination root handle, descriptor-relative calls use a plain base name; os.Root's own confinement is trusted.",
+ "C06": "Bounded: daemon text protocol with arbitrary request paths below modules whose names are prefixes of one another: every object the sender looks at lies inside the requested module; only ambient call is OpenRoot(module path).",
+ "C07": "Bounded: daemon text protocol end to end for read-only / writable / fs.FS modules under every subset of -r --delete -n -p -t and sub-directory targets: not writable => no file-system event at all, error + error frame.",
+ "C13": "Bounded: k symbolic plain-name exclude/include rules through the real wire parser vs first-match reference on symbolic names; walk over symbolic trees (later siblings of excluded files, subtrees of excluded directories); client-side sender honours the user's rules.",
+ "C14": "Bounded: every subset of the transfer options in both directions: client ServerOptions() -> real server parser agreement; encoder/decoder stream agreement under all field-adding options; push end to end through real option plumbing incl. --delete.",
+ "C19": "Bounded: rule lists up to length 2 (thorough 3) over allow/deny/malformed x all/symbolic IPv4 and IPv6 networks/malformed, client IPv4, IPv6, IPv4-mapped: checkACL == first-match reference; real net.IPNet.Contains executed.",
+ "C20": "Bounded: key admission through the real Serve/PublicKeyCallback for symbolic key blobs and key sets; channel/request dispatch for symbolic types; command lines from a 12-word vocabulary through the SSH command callback and the real option parser: only the daemon protocol is reachable.",
  "C02": "Bounded model checking: sender token stream vs an independent reference receiver for all bases/targets/seeds up to the stated lengths and block sizes; receiver vs all scripted token streams. Exhaustive inside the bound by SMT, nothing claimed outside.",
  "C03": "Bounded: adversarial data segments (symbolic header, tokens, trailer, basis): commit only if the content matches the received whole-file checksum; error => no rename, temp file cleaned up.",
  "C04": "Bounded, event-prefix form of crash atomicity: invariant on the destination path after every file-system event of the model, for every truncation offset of the stream.",
